@@ -246,6 +246,8 @@ pub struct Prepared {
     pub driver: Driver,
     pub funcs: Vec<&'static FnInfo>,
     pub events: Arc<Mutex<Vec<OpEvent>>>,
+    /// thread-scope drivers: the execution pattern of each thread's program run alone on a fresh thread
+    pub iso: Mutex<Option<Vec<Vec<(String, bool)>>>>,
 }
 
 impl Prepared {
@@ -262,7 +264,7 @@ impl Prepared {
                 let _ = (f.call)(0);
             }
         }
-        Prepared { driver: driver.clone(), funcs, events: Arc::new(Mutex::new(Vec::new())) }
+        Prepared { driver: driver.clone(), funcs, events: Arc::new(Mutex::new(Vec::new())), iso: Mutex::new(None) }
     }
 
     pub fn reset(&self) -> Result<(), String> {
@@ -279,6 +281,29 @@ impl Prepared {
         self.events.lock().unwrap().clear();
         SEQ.store(0, Ordering::SeqCst);
         Ok(())
+    }
+
+    /// Differential oracle for thread scope (C14): run every thread's program alone, each on a
+    /// fresh OS thread of its own, and remember (result, executed) per operation.
+    pub fn compute_isolated_patterns(&self) {
+        if !self.funcs.iter().any(|f| f.flavour == Flavour::Thread) {
+            return;
+        }
+        let mut pats = Vec::new();
+        for t in 0..self.driver.threads.len() {
+            let mut all = self.make_threads();
+            let only = all.remove(t);
+            drop(all);
+            let out = vsched::run(&[], &[], vec![only], RwPolicy::ReadersBarge, 20_000);
+            if out.deadlock.is_some() || !out.panics.is_empty() {
+                pats.push(Vec::new());
+                continue;
+            }
+            // the single model thread is thread 0 of that run
+            let ev = self.events.lock().unwrap().clone();
+            pats.push(ev.iter().map(|e| (e.result.clone(), e.executed)).collect());
+        }
+        *self.iso.lock().unwrap() = Some(pats);
     }
 
     /// reset, run the sequential setup, build the thread bodies
@@ -321,9 +346,10 @@ impl Prepared {
                     let start = SEQ.fetch_add(1, Ordering::SeqCst);
                     let log_before = l1::log_len();
                     let result = perform(op, &l0);
+                    let me = vsched::current_thread();
                     let executed = {
                         let g = l1::LOG.lock().unwrap();
-                        g[log_before.min(g.len())..].iter().any(|e| matches!(e, Ev::Exec { thread: Some(tt), .. } if *tt == t))
+                        g[log_before.min(g.len())..].iter().any(|e| matches!(e, Ev::Exec { thread, .. } if *thread == me))
                     };
                     let end = SEQ.fetch_add(1, Ordering::SeqCst);
                     events.lock().unwrap().push(OpEvent { thread: t, idx, op: op.clone(), start, end, result, executed });
@@ -389,6 +415,7 @@ pub fn check_execution(p: &Prepared, out: &Outcome) -> Quiescent {
     if !clean {
         return Quiescent { findings: fs, observation: obs };
     }
+    let evicting = d.threads.iter().flatten().chain(d.setup.iter().filter_map(|s| if let SOp::Op(o) = s { Some(o) } else { None })).any(|o| !matches!(o, TOp::Call { .. } | TOp::StatsGet { .. } | TOp::StatsList));
     // ---- C18: values inside threads
     for e in &events {
         if let TOp::Call { f, k } = &e.op {
@@ -402,7 +429,6 @@ pub fn check_execution(p: &Prepared, out: &Outcome) -> Quiescent {
         }
     }
     // ---- C03 (concurrent clause): nothing executes after a storing call has returned
-    let evicting = d.threads.iter().flatten().chain(d.setup.iter().filter_map(|s| if let SOp::Op(o) = s { Some(o) } else { None })).any(|o| !matches!(o, TOp::Call { .. } | TOp::StatsGet { .. } | TOp::StatsList));
     for f in &p.funcs {
         let plain = f.limit.is_none() && f.ttl.is_none() && f.mem.is_none() && !f.has_cache_if && !f.has_inval_on && !f.is_result && !evicting;
         if !plain || f.flavour == Flavour::Thread {
@@ -422,8 +448,27 @@ pub fn check_execution(p: &Prepared, out: &Outcome) -> Quiescent {
             }
         }
     }
-    // ---- C14: thread scope behaves as if each thread ran alone
-    // (the expectation is computed by the caller for thread-scope drivers; see `isolated_patterns`)
+    // ---- C14: thread scope behaves as if each thread ran alone; global scope shares
+    if let Some(iso) = p.iso.lock().unwrap().as_ref() {
+        for (t, want) in iso.iter().enumerate() {
+            let got: Vec<(String, bool)> = events.iter().filter(|e| e.thread == t).map(|e| (e.result.clone(), e.executed)).collect();
+            if got != *want {
+                fs.push(TFinding { property: "C14", monitor: format!("thread/{pol}/thread-scope-not-isolated"), detail: format!("thread {t} observed {:?} (result, body ran) in this interleaving but {:?} when its program runs alone", got, want) });
+            }
+        }
+    }
+    for f in &p.funcs {
+        if f.flavour == Flavour::Thread || f.limit.is_some() || f.ttl.is_some() || f.mem.is_some() || evicting {
+            continue;
+        }
+        for e in events.iter().filter(|e| e.executed) {
+            if let TOp::Call { f: ff, k } = &e.op {
+                if *ff == f.id && events.iter().any(|o| matches!(&o.op, TOp::Call { f: f2, k: k2 } if f2 == ff && k2 == k) && o.executed && o.end < e.start && o.thread != e.thread) {
+                    fs.push(TFinding { property: "C14", monitor: format!("{flav}/global-entry-not-shared"), detail: format!("thread {} recomputed {}({k}) although another thread had stored it before the call started", e.thread, f.fn_name) });
+                }
+            }
+        }
+    }
     // ---- C15 (concurrent clause): exact counters
     let resets = d.threads.iter().flatten().any(|o| matches!(o, TOp::StatsReset { .. }));
     if !resets {
@@ -548,6 +593,7 @@ pub struct DriverResult {
     pub violations: Vec<Violation>,
     pub sample: J,
     pub exec_cap_hit: bool,
+    pub bound_used: usize,
 }
 
 pub fn policy_name(p: RwPolicy) -> &'static str {
@@ -566,8 +612,10 @@ pub fn replay_json(d: &Driver, pol: RwPolicy, out: &Outcome) -> J {
         .set("schedule_rendered", J::Arr(out.render_schedule().into_iter().map(J::Str).collect()))
 }
 
-pub fn explore_driver(d: &Driver, property: &str, max_bound: usize, max_execs: u64) -> DriverResult {
+pub fn explore_driver(d: &Driver, property: &str, max_bound: usize, unbounded_if_points_at_most: usize, max_execs: u64) -> DriverResult {
+    let mut max_bound = max_bound;
     let prep = Prepared::new(d);
+    prep.compute_isolated_patterns();
     let mut res = DriverResult {
         schedules: 0,
         by_bound: Vec::new(),
@@ -578,6 +626,7 @@ pub fn explore_driver(d: &Driver, property: &str, max_bound: usize, max_execs: u
         violations: Vec::new(),
         sample: J::Null,
         exec_cap_hit: false,
+        bound_used: 0,
     };
     let mut observations: BTreeSet<String> = BTreeSet::new();
     let mut per_sig: BTreeMap<String, usize> = BTreeMap::new();
@@ -588,8 +637,32 @@ pub fn explore_driver(d: &Driver, property: &str, max_bound: usize, max_execs: u
         let qa = check_execution(&prep, &a);
         let b = vsched::run(&[], &[], prep.make_threads(), RwPolicy::ReadersBarge, 20_000);
         let qb = check_execution(&prep, &b);
+        let thread_only = !prep.funcs.is_empty() && prep.funcs.iter().all(|f| f.flavour == Flavour::Thread);
+        if thread_only && (a.render_schedule() != b.render_schedule() || qa.observation != qb.observation) {
+            // every execution runs on fresh OS threads, so the same schedule can only behave
+            // differently the second time if thread-scope state outlived (was shared between) threads
+            if property == "C14" {
+                res.violations.push(Violation {
+                    property: "C14",
+                    signature: format!("C14/thread/{}/state-outlives-its-thread", prep.funcs[0].pol().name()),
+                    detail: format!("driver {}: the same schedule on fresh OS threads gave {} the first time and {} the second time", d.label, qa.observation, qb.observation),
+                    replay: replay_json(d, RwPolicy::ReadersBarge, &b),
+                });
+            }
+            res.schedules = 2;
+            res.by_bound.push((0, policy_name(RwPolicy::ReadersBarge).to_string(), 2));
+            res.points_total = (a.points.len() + b.points.len()) as u64;
+            res.max_points = a.points.len().max(b.points.len());
+            res.distinct_observations = 2;
+            return res;
+        }
         if a.render_schedule() != b.render_schedule() || qa.observation != qb.observation {
             vsched::machinery_failure(&format!("driver {} is not deterministic:\n{:?}\n{:?}\n{}\n{}", d.label, a.render_schedule(), b.render_schedule(), qa.observation, qb.observation));
+        }
+        // drivers with only a handful of scheduling points (thread scope: operation boundaries
+        // only) are explored without an effective preemption bound
+        if a.points.len() <= unbounded_if_points_at_most {
+            max_bound = max_bound.max(a.points.len());
         }
     }
     for pol in [RwPolicy::ReadersBarge, RwPolicy::WriterPreference] {
@@ -630,6 +703,26 @@ pub fn explore_driver(d: &Driver, property: &str, max_bound: usize, max_execs: u
                     true
                 },
             );
+            if let Some(dv) = &st.diverged {
+                let thread_only = !prep.funcs.is_empty() && prep.funcs.iter().all(|f| f.flavour == Flavour::Thread);
+                if thread_only {
+                    if property == "C14" {
+                        res.violations.push(Violation {
+                            property: "C14",
+                            signature: format!("C14/thread/{}/state-outlives-its-thread", prep.funcs[0].pol().name()),
+                            detail: format!("driver {}: replaying a schedule prefix on fresh OS threads met different lock/enabled sets ({dv}): thread-scope state leaked between executions", d.label),
+                            replay: J::obj().set("engine", "thrx").set("driver", d.to_json()).set("rw_policy", policy_name(pol)).set("schedule", J::Arr(vec![])),
+                        });
+                    }
+                    res.by_bound.push((bound, policy_name(pol).to_string(), st.executions));
+                    res.schedules += st.executions;
+                    res.distinct_observations = observations.len().max(1);
+                    res.points_total += st.points_total;
+                    res.max_points = res.max_points.max(st.max_points);
+                    return res;
+                }
+                vsched::machinery_failure(dv);
+            }
             res.by_bound.push((bound, policy_name(pol).to_string(), st.executions));
             res.max_points = res.max_points.max(st.max_points);
             res.points_total += st.points_total;
@@ -637,6 +730,7 @@ pub fn explore_driver(d: &Driver, property: &str, max_bound: usize, max_execs: u
             res.exec_cap_hit |= st.exec_cap_hit;
             if bound == max_bound {
                 res.schedules += st.executions;
+                res.bound_used = max_bound;
             }
             let _ = n_here;
         }
@@ -736,6 +830,41 @@ pub fn drivers_for(property: &str, thorough: bool) -> Vec<Driver> {
                         }
                     }
                 }
+            }
+        }
+        "C14" => {
+            // thread scope: every pair (and selected triples) of short programs over two keys
+            let progs2: Vec<Vec<u32>> = vec![vec![1, 1], vec![1, 2], vec![2, 1], vec![1, 2, 1], vec![1, 2, 3], vec![2, 2, 1]];
+            for f in conc(Flavour::Thread) {
+                let random_limited = f.pol() == Pol::Random && f.limit.is_some();
+                if random_limited {
+                    continue; // the isolated run cannot be paired with the same random victims
+                }
+                for (i, a) in progs2.iter().enumerate() {
+                    for (j, b) in progs2.iter().enumerate() {
+                        if !thorough && (i + j) % 2 == 1 {
+                            continue;
+                        }
+                        push(
+                            format!("T:{}:{:?}~{:?}", f.fn_name, a, b),
+                            vec![],
+                            vec![a.iter().map(|k| call(f, *k)).collect(), b.iter().map(|k| call(f, *k)).collect()],
+                            None,
+                            false,
+                        );
+                    }
+                }
+                push(format!("T:{}:3 threads", f.fn_name), vec![], vec![vec![call(f, 1), call(f, 2)], vec![call(f, 1), call(f, 1)], vec![call(f, 2), call(f, 1)]], None, false);
+                if thorough {
+                    push(format!("T:{}:4 threads", f.fn_name), vec![], vec![vec![call(f, 1), call(f, 2)], vec![call(f, 1)], vec![call(f, 2), call(f, 1)], vec![call(f, 1)]], None, false);
+                }
+            }
+            // global scope (sync and async): what one thread stored, every other thread is served
+            for fl in [Flavour::Global, Flavour::Async] {
+                let f = FUNCS.iter().find(|f| f.family == "conc" && f.flavour == fl && f.limit.is_none() && f.ttl.is_none() && f.mem.is_none()).unwrap();
+                push(format!("{}:store then read elsewhere", f.fn_name), vec![], vec![vec![call(f, 1)], vec![call(f, 1)]], None, false);
+                push(format!("{}:two keys crossing", f.fn_name), vec![], vec![vec![call(f, 1), call(f, 2)], vec![call(f, 2), call(f, 1)]], None, false);
+                push(format!("{}:3 threads", f.fn_name), vec![], vec![vec![call(f, 1)], vec![call(f, 1), call(f, 2)], vec![call(f, 2)]], None, false);
             }
         }
         "C03" => {
